@@ -42,6 +42,8 @@ def chunks_for(n, r):
 
 
 def oracle(inp):
+    if not isinstance(inp, dict) or inp.get('kind') not in ('stream','oneshot'):
+        return None          # unknown input kind (model of another property's unit)
     from cardutil.mciipm import Block1014, block_1014
     kind = inp.get('kind', 'stream')
     if kind == 'oneshot':
